@@ -263,7 +263,7 @@ def rename_oracle(spec):
         return {'nt': False, 'cls': ['exception']}
     cov = set(c['name'] for c in spec['obs'].get('cov', []))
     cmp_analysis(snapshot_analysis(o1), snapshot_analysis(o2), 'replica renaming / argument order', 1e-9,
-                 keymap=lambda k: k if k in cov else spec['emap'][k])
+                 keymap=lambda k: k if k in cov else spec['emap'].get(k, k))
     old = sorted(spec['rmap'])
     new_order = sorted(old, key=lambda n: spec['rmap'][n])
     labs = layout_labels(spec['obs'])
@@ -406,7 +406,15 @@ def number(c, ctype):
 
 
 def numbers():
-    return st.one_of(gen.fl(-5, 5), st.sampled_from([0.0, 1.0, -1.0, 2.0, 0.5, 3.0, -2.0, 1.5]))
+    """0 or 0.05 <= |c| <= 5: the operand is of the order of the data, so that no product or quotient leaves the range in which
+    the squares of the fluctuations are representable (tiny divisors are about overflow, not about the call history)."""
+    return st.one_of(gen.fl(0.05, 5.0), gen.fl(-5.0, -0.05), st.sampled_from([0.0, 1.0, -1.0, 2.0, 0.5, 3.0, -2.0, 1.5]))
+
+
+def moderate(o, bound):
+    """value and fluctuations are finite and below `bound` in magnitude"""
+    m = max([abs(float(o.value))] + [float(np.max(np.abs(d))) for d in o.deltas.values() if len(d)])
+    return bool(np.isfinite(m)) and m < bound
 
 
 # operator catalogue: name -> (fn(o, c, b), admissible(o, c)); o, b observables, c a number
@@ -422,9 +430,9 @@ NUM_OPS = {
     'o*c': (lambda o, c, b: o * c, _always),
     'c*o': (lambda o, c, b: c * o, _always),
     'o/c': (lambda o, c, b: o / c, lambda o, c: c != 0),
-    'c/o': (lambda o, c, b: c / o, lambda o, c: abs(o.value) > 1e-3),
+    'c/o': (lambda o, c, b: c / o, lambda o, c: abs(o.value) > 0.05),
     'o**2': (lambda o, c, b: o ** 2, _always),
-    '2**o': (lambda o, c, b: 2 ** o, lambda o, c: abs(o.value) < 50),
+    '2**o': (lambda o, c, b: 2 ** o, lambda o, c: abs(o.value) < 10),
 }
 UNARY_OPS = {
     '-o': (lambda o, c, b: -o, _always),
@@ -602,6 +610,9 @@ def make_history_machine(tier):
                 return
             i, j = i % len(self.pool), j % len(self.pool)
             a, b = self.pool[i]['obj'], self.pool[j]['obj']
+            if not (moderate(a, 1e30) and moderate(b, 1e30)):       # repeated products: keep squares of the fluctuations representable
+                self.labels.append('arith:skipped_huge')
+                return
             before = (obs_bytes(a), obs_bytes(b))
             res = self.apply(op, a, b)
             require((obs_bytes(a), obs_bytes(b)) == before, 'arithmetic altered its operands')
@@ -622,7 +633,7 @@ def make_history_machine(tier):
             a = self.pool[i]['obj']
             y = number(c, ctype)
             fn, admissible = NUM_OPS[op]
-            if not admissible(a, y):
+            if not admissible(a, y) or not moderate(a, 1e3):
                 return
             before = obs_bytes(a)
             state = analysis_state(a)
@@ -660,11 +671,73 @@ def history_replay(spec):
     return vm.replay(history_machine('quick'), spec['trace'])
 
 
+# ------------------------------------------------------------------------------------------- derive
+@st.composite
+def derive_case(draw, tier):
+    nmax = 30 if tier == 'quick' else 150
+    obs = draw(obs_nested(gen.obs_spec(ens_max=2, nmin=8, nmax=nmax, data_kinds=('white', 'ar1', 'count', 'list'), sigma=gen.fl(0.05, 1.0))))
+    # second operand of the binary operations: same or other ensembles, no covariance part (one matrix per name)
+    obs2 = draw(obs_nested(gen.obs_spec(ens_max=2, rep_max=2, nmin=8, nmax=nmax, data_kinds=('white', 'ar1'), sigma=gen.fl(0.05, 1.0), with_cov=False)))
+    hist = draw(st.lists(analyse_opts(), min_size=1, max_size=3))
+    return {'obs': obs, 'obs2': obs2, 'hist': hist, 'b_analysed': draw(st.booleans()), 'c': draw(numbers()), 'ctype': draw(st.sampled_from(CTYPES)),
+            'kw': draw(analyse_opts()), 'rot': draw(st.integers(0, 3))}
+
+
+def _attempt(fn, o, c, b):
+    try:
+        return fn(o, c, b), None
+    except Exception as e:
+        return None, e
+
+
+def derive_oracle(spec):
+    fresh, parent = build_obs(spec['obs']), build_obs(spec['obs'])
+    b_fresh, b_parent = build_obs(spec['obs2']), build_obs(spec['obs2'])
+    n_ok = 0
+    for kw in spec['hist']:
+        n_ok += run_gm(parent, kw) is None
+    if spec['b_analysed']:
+        run_gm(b_parent, spec['hist'][-1])
+    require(obs_bytes(parent) == obs_bytes(fresh), 'gamma_method altered value, fluctuations or configuration lists of the observable')
+    before = (obs_bytes(parent), analysis_state(parent), obs_bytes(b_parent), analysis_state(b_parent))
+    c = number(spec['c'], spec['ctype'])
+    done = 0
+    for k, name in enumerate(sorted(ALL_OPS)):
+        fn, admissible = ALL_OPS[name]
+        if not admissible(fresh, c):
+            continue
+        what = '%s with c = %r (%s), o analysed %d times before%s' % (name, c, spec['ctype'], n_ok, ', b analysed before' if spec['b_analysed'] and name in BINARY_OPS else '')
+        r1, e1 = _attempt(fn, fresh, c, b_fresh)
+        r2, e2 = _attempt(fn, parent, c, b_parent)
+        require(type(e1) is type(e2), what + ': raises for one of analysed / never analysed operands only', e2, e1)
+        if e1 is not None:
+            continue
+        require(r2 is not parent and r2 is not b_parent, what + ': the result is the operand itself')
+        require(obs_bytes(r2) == obs_bytes(r1), what + ': value, fluctuations or configuration lists differ from the same derivation from never-analysed copies',
+                r2.value, r1.value)
+        same_state(r2, r1, what)
+        done += 1
+        # ... and their own analysis (every fourth entry of the catalogue, which ones is part of the case)
+        if (k + spec['rot']) % 4:
+            continue
+        x1, x2 = run_gm(r1, spec['kw']), run_gm(r2, spec['kw'])
+        require(type(x1) is type(x2), what + ': gamma_method%r of the result raises for one of analysed / never analysed operands only' % spec['kw'], x2, x1)
+        same_state(r2, r1, what + ', after gamma_method(%r) of the result' % spec['kw'])
+    after = (obs_bytes(parent), analysis_state(parent), obs_bytes(b_parent), analysis_state(b_parent))
+    require(after == before, 'deriving observables from analysed objects (and analysing the results) changed the operands or their stored analysis')
+    labs = layout_labels(spec['obs'])
+    cls = ['ctype:' + spec['ctype'], 'parent_analyses:%d' % n_ok, 'b_analysed' if spec['b_analysed'] else 'b_fresh', 'ops:%d' % done]
+    cls += [x for x in sorted(labs) if x.startswith('nested') or x == 'multi_replica']
+    return {'nt': n_ok > 0 and done > 0, 'cls': cls}
+
+
 SUBS = [
     Sub('fft', fft_case, fft_oracle, {'quick': 350, 'thorough': 3000}, {'quick': 2, 'thorough': 8}, doc='fft vs direct summation'),
     Sub('relabel', relabel_case, relabel_oracle, {'quick': 450, 'thorough': 4000}, {'quick': 3, 'thorough': 8}, doc='i -> a*i+b per ensemble'),
     Sub('rename', rename_case, rename_oracle, {'quick': 350, 'thorough': 3000}, {'quick': 2, 'thorough': 8}, doc='replica / ensemble renaming, argument order'),
     Sub('affine', affine_case, affine_oracle, {'quick': 350, 'thorough': 3000}, {'quick': 2, 'thorough': 8}, doc='shift and scale of the data'),
+    Sub('derive', derive_case, derive_oracle, {'quick': 100, 'thorough': 1500}, {'quick': 2, 'thorough': 8},
+        doc='operator catalogue on analysed vs never analysed copies: same data, same analysis state'),
     Sub('history', None, history_replay, {'quick': 120, 'thorough': 600}, {'quick': 7, 'thorough': 16}, kind='machine',
         machine=history_machine, steps={'quick': 25, 'thorough': 40}, doc='model-based call histories'),
 ]
